@@ -71,6 +71,12 @@ def run_pair(domain, cases, harness_extra=None, timeout=600, jobs=8, chunk=64):
         out.extend(zip(impl[k], model[k]))
     return out
 
+def split_info(lines):
+    """lines starting with '~' are informational (measurements, wire dumps): not part of the diff"""
+    if lines is None:
+        return None, []
+    return [l for l in lines if not l.startswith("~")], [l for l in lines if l.startswith("~")]
+
 def first_diff(a, b):
     """index of the first differing line (or None)"""
     for i in range(max(len(a), len(b))):
